@@ -9,7 +9,7 @@ for name in "${names[@]}"; do
   if ! git -C /repo diff --quiet; then echo "/repo is dirty, refusing"; exit 2; fi
   if ! git -C /repo apply "/verif/seeded/$name/patch.diff" 2>/dev/null; then
     if ! git -C /repo apply --3way "/verif/seeded/$name/patch.diff" >/dev/null 2>&1; then
-      echo "$name $id apply-failed" | tee -a $res; git -C /repo checkout -- . ; git -C /repo reset -q; continue
+      echo "$name $id apply-failed" | tee -a $res; git -C /repo reset -q --hard HEAD; continue
     fi
     git -C /repo reset -q
   fi
